@@ -51,7 +51,7 @@ txt = {
  "P_tag": "tag", "P_TAG": "TaG", "P_expires": "expires", "P_EXPIRES": "EXPIRES", "P_q": "q", "P_Q": "Q", "P_lr": "lr", "P_LR": "LR",
  "P_other": "foo", "P_tagx": "tagx", "P_ta": "ta",
  "PV_tok": "abc", "PV_num": "3600", "PV_0": "0", "PV_big": "4294967296", "PV_q5": "0.5", "PV_q1": "1", "PV_q1000": "1.000", "PV_q05": ".05", "PV_q2": "2",
- "PV_quoted": "\"q v\"", "PV_qesc": "\"a\\\"b;c,d\"",
+ "PV_quoted": "\"q v\tw\"", "PV_qesc": "\"a\\\"b;c,d\"",
  "U_inner": "sip:a@b;tag=in;lr;expires=5;q=0.1", "WSFH": "\r\n\t", "WSSF": " \r\n ",
  "D_qfold": "\"A\r\n B\"", "PV_qfold": "\"a\r\n\tb\"", "PV_q1dot": "1.", "PV_q0005": "0.005", "PV_q0999": "0.999",
  "P_expire": "expire", "P_expiress": "expiress", "P_qq": "qq", "P_l": "l", "P_lrx": "lrx", "P_Expires": "Expires", "P_tAG": "tAG", "P_Lr": "Lr",
